@@ -163,3 +163,140 @@ func SelfTest() error {
 	}
 	return nil
 }
+
+// Family is a parametric input family: Gen(k) for k = 1..K, each enumerated completely.
+type Family struct {
+	Name string
+	Gen  func(k int) []byte
+}
+
+func rep(s string, k int) []byte {
+	out := make([]byte, 0, len(s)*k)
+	for i := 0; i < k; i++ {
+		out = append(out, s...)
+	}
+	return out
+}
+
+func cat(parts ...[]byte) []byte {
+	var out []byte
+	for _, p := range parts {
+		out = append(out, p...)
+	}
+	return out
+}
+
+// Families returns the parametric families of DESIGN.md section 4.4: t^k for
+// every token of B and I, open^k close^k pairs, and growing-depth documents.
+func Families() []Family {
+	var fs []Family
+	seen := map[string]bool{}
+	for _, sp := range []Space{B, I} {
+		for _, t := range sp.Tokens {
+			if seen[t] {
+				continue
+			}
+			seen[t] = true
+			t := t
+			fs = append(fs, Family{Name: fmt.Sprintf("%q^k", t), Gen: func(k int) []byte { return rep(t, k) }})
+		}
+	}
+	pair := func(a, mid, b string) {
+		fs = append(fs, Family{Name: fmt.Sprintf("%q^k %q %q^k", a, mid, b), Gen: func(k int) []byte { return cat(rep(a, k), []byte(mid), rep(b, k)) }})
+	}
+	pair("[", "a", "]")
+	pair("[", "", "]")
+	pair("(", "a", ")")
+	pair("[a](", "", ")")
+	pair("*", "a", "*")
+	pair("_", "a", "_")
+	pair("**", "a", "**")
+	pair("*a ", "", "*")
+	pair("_a ", "", "_")
+	pair("`", "a", "`")
+	pair("`", "a", "")
+	pair("> ", "a", "")
+	pair(">", "a", "")
+	pair("- ", "a", "")
+	pair("1. ", "a", "")
+	pair("<a ", "", ">")
+	pair("<", "a", ">")
+	pair("![", "a", "]")
+	pair("![", "a", "](u)")
+	pair("[", "a", "](u)")
+	pair("[a][", "", "]")
+	pair("\\", "a", "")
+	pair("&", "amp;", ";")
+	pair("&#", "1;", "")
+	pair("a\n", "", "")
+	pair("a\r\n", "", "")
+	pair("a\r", "", "")
+	pair("- a\n", "", "")
+	pair("- a\n\n", "", "")
+	pair("> a\n", "", "")
+	pair("[a]: /u\n", "[a]", "")
+	pair("[a]: /u\n", "", "[a]")
+	pair("# a\n", "", "")
+	pair("a\n===\n", "", "")
+	pair("```\n", "", "")
+	pair("    a\n", "", "")
+	pair("\ta\n", "", "")
+	pair("<div>\n", "", "")
+	pair("<!--\n", "", "-->")
+	pair("*a*\n", "", "")
+	pair("a\x00", "", "")
+	pair("\x00\n", "", "")
+	pair("a  \n", "", "")
+	pair("a\\\n", "", "")
+	pair("<b>", "a", "</b>")
+	pair("<http://a>", "", "")
+	pair("<a@b.c>", "", "")
+	pair("- ", "", "")
+	pair("-\n", "", "")
+	pair("1.\n", "", "")
+	pair("[a", "", "")
+	pair("![a", "", "")
+	pair("[a](/u \"", "", "")
+	pair("[a](<", "", "")
+	pair("<a href=\"", "", "")
+	pair("<!-- ", "", "")
+	pair("<![CDATA[", "", "")
+	pair("<?", "", "")
+	// Growing depth: nested lists and quotes spelled over several lines.
+	fs = append(fs, Family{Name: "nested bullet lists, depth k", Gen: func(k int) []byte {
+		var out []byte
+		for i := 0; i < k; i++ {
+			out = append(out, rep("  ", i)...)
+			out = append(out, "- a\n"...)
+		}
+		return out
+	}})
+	fs = append(fs, Family{Name: "nested quotes, depth growing per line", Gen: func(k int) []byte {
+		var out []byte
+		for i := 1; i <= k && i <= 64; i++ {
+			out = append(out, rep(">", i)...)
+			out = append(out, " a\n"...)
+		}
+		out = append(out, rep("> ", k)...)
+		return append(out, "b\n"...)
+	}})
+	fs = append(fs, Family{Name: "k-digit ordered marker", Gen: func(k int) []byte { return cat(rep("1", k), []byte(". a\n")) }})
+	fs = append(fs, Family{Name: "k # then text", Gen: func(k int) []byte { return cat(rep("#", k), []byte(" a "), rep("#", k), []byte("\n")) }})
+	fs = append(fs, Family{Name: "label of k letters, defined and used", Gen: func(k int) []byte {
+		l := rep("a", k)
+		return cat([]byte("["), l, []byte("]: /u\n\n["), l, []byte("]\n"))
+	}})
+	fs = append(fs, Family{Name: "email with k-letter domain label", Gen: func(k int) []byte {
+		return cat([]byte("<a@"), rep("b", k), []byte(".c>\n"))
+	}})
+	fs = append(fs, Family{Name: "fence of k backticks with shorter closer", Gen: func(k int) []byte {
+		return cat(rep("`", k+2), []byte("\na\n"), rep("`", k+1), []byte("\n"))
+	}})
+	fs = append(fs, Family{Name: "k spaces of indentation then a list", Gen: func(k int) []byte {
+		return cat([]byte("- a\n"), rep(" ", k), []byte("- b\n"))
+	}})
+	fs = append(fs, Family{Name: "k tabs then text in a list", Gen: func(k int) []byte {
+		return cat([]byte("- a\n\n"), rep("\t", k), []byte("b\n"))
+	}})
+	return fs
+}
